@@ -96,3 +96,15 @@ Proof. unfold len. rewrite repeat_length. reflexivity. Qed.
 Lemma len_concat_map {A} (f : A -> bytes) (l : list A) :
   len (concat (map f l)) = fold_right (fun x s => len (f x) + s) 0 l.
 Proof. induction l as [|x l IH]; cbn [map concat fold_right]; [reflexivity|]. rewrite len_app, IH. reflexivity. Qed.
+
+Lemma skipn_skipn' {A} : forall (b a : nat) (l : list A), skipn a (skipn b l) = skipn (b + a) l.
+Proof.
+  induction b as [|b IH]; intros a l; [reflexivity|].
+  destruct l as [|x l]; [cbn; destruct a; reflexivity|]. cbn [skipn Nat.add]. apply IH.
+Qed.
+
+Lemma firstn_add' {A} : forall (a b : nat) (l : list A), firstn (a + b) l = firstn a l ++ firstn b (skipn a l).
+Proof.
+  induction a as [|a IH]; intros b l; [reflexivity|].
+  destruct l as [|x l]; [cbn; destruct b; reflexivity|]. cbn [Nat.add firstn skipn app]. f_equal. apply IH.
+Qed.
